@@ -48,8 +48,8 @@ type JobSpec struct {
 	Stubs        map[string]string  `json:"stubs"`
 	Noops        []string           `json:"noops"`
 	AllowPkgs    []string           `json:"allow_pkgs"`
-	InitPkgs     []string           `json:"init_pkgs"` // packages whose init() is executed first
-	FixedNow     int64              `json:"fixed_now"` // time.Now() returns this instant (ns since 1970)
+	InitPkgs     []string           `json:"init_pkgs"`     // packages whose init() is executed first
+	FixedNow     int64              `json:"fixed_now"`     // time.Now() returns this instant (ns since 1970)
 	ExecBudget   int                `json:"exec_budget_s"` // wall-clock cap on the symbolic execution of one instance
 	FloatUF      bool               `json:"float_uf"`
 	Solvers      []string           `json:"solvers"`
@@ -324,6 +324,19 @@ func runInstance(lp *LoadedPkg, js *JobSpec, ps map[string]int64, pools map[stri
 	return
 }
 
+// solver diff bookkeeping
+var (
+	diffFrac                    float64
+	diffSeed                    int64
+	diffMu                      sync.Mutex
+	diffRun, diffAgree, diffBad int
+)
+
+func diffPick(script string) bool {
+	h := sha256.Sum256([]byte(fmt.Sprintf("%d|%s", diffSeed, script)))
+	return float64(h[0])/256.0 < diffFrac
+}
+
 type work struct {
 	qr     *QueryResult
 	script string
@@ -359,6 +372,25 @@ func solveAll(rs []*InstanceResult, pools map[string]*SolverPool, workers int) {
 					}
 					if r.Status == "sat" || r.Status == "unsat" {
 						break
+					}
+				}
+				// solver diff: re-decide a seeded sample with a different back end
+				if diffFrac > 0 && (w.qr.Status == "sat" || w.qr.Status == "unsat") && diffPick(w.script) {
+					alt := "cvc5"
+					if w.qr.Solver == "cvc5" || w.qr.Solver == "cvc5int" {
+						alt = "z3-new"
+					}
+					if ap, ok := pools[alt]; ok {
+						r2 := ap.Solve(w.script, nil, false, 60)
+						diffMu.Lock()
+						diffRun++
+						if (r2.Status == "sat" || r2.Status == "unsat") && r2.Status != w.qr.Status {
+							diffBad++
+							w.qr.Status = "disagree(" + w.qr.Solver + "=" + w.qr.Status + "," + alt + "=" + r2.Status + ")"
+						} else if r2.Status == "sat" || r2.Status == "unsat" {
+							diffAgree++
+						}
+						diffMu.Unlock()
 					}
 				}
 			}
